@@ -4,6 +4,7 @@ package main
 
 import (
 	"fmt"
+	"runtime"
 	"go/ast"
 	"go/token"
 	"go/types"
@@ -107,7 +108,17 @@ func calleeName(w *World, info *types.Info, call *ast.CallExpr) string {
 
 // verifyFunc generates all obligations of one contracted function.
 func (w *World) verifyFunc(fi *FuncInfo, ct *Contract, defaultSafety bool, prop string) (res *FuncResult) {
+	return w.verifyFuncMode(fi, ct, defaultSafety, prop, false)
+}
+
+func (w *World) verifyFuncMode(fi *FuncInfo, ct *Contract, defaultSafety bool, prop string, sweep bool) (res *FuncResult) {
 	c := w.newFCtx(fi.Key, ct, defaultSafety)
+	if sweep {
+		c.LockSweep = true
+		c.LockChecks = true
+		c.Safety = false
+		c.Name = fi.Key
+	}
 	c.FI = fi
 	c.PropFilter = prop
 	res = &FuncResult{Key: fi.Key, Mode: "int"}
@@ -126,10 +137,11 @@ func (w *World) verifyFunc(fi *FuncInfo, ct *Contract, defaultSafety bool, prop 
 			case specFail:
 				res.OutOfReach = "spec error: " + string(x)
 			default:
-				panic(r)
+				res.OutOfReach = fmt.Sprintf("engine error: %v @ %s", r, shortStack())
 			}
 			res.Obls = c.Obls
 			res.Notes = c.Notes
+			c.attachDefs()
 		}
 	}()
 	c.numberSites(fi)
@@ -278,6 +290,10 @@ func (c *FCtx) checkPost(e *Env, st *State, tag string, pos token.Pos) {
 			}
 		}
 		for i, en := range ct.Ensures {
+			if en.Assumed {
+				c.noteAssumed(fmt.Sprintf("%s: assumed postcondition: %s", c.Name, en.Text))
+				continue
+			}
 			label := en.Label
 			if label == "" {
 				label = fmt.Sprintf("%d", i+1)
@@ -323,6 +339,25 @@ func (c *FCtx) userAxioms() []*Term {
 		out = append(out, se.evalBool(a.Expr))
 	}
 	return out
+}
+
+func shortStack() string {
+	buf := make([]byte, 1<<14)
+	n := runtime.Stack(buf, false)
+	var out []string
+	for _, l := range strings.Split(string(buf[:n]), "\n") {
+		l = strings.TrimSpace(l)
+		if strings.HasPrefix(l, "/verif/cmd/gocv/") {
+			if k := strings.Index(l, " "); k > 0 {
+				l = l[:k]
+			}
+			out = append(out, strings.TrimPrefix(l, "/verif/cmd/gocv/"))
+		}
+		if len(out) >= 6 {
+			break
+		}
+	}
+	return strings.Join(out, " < ")
 }
 
 // ---- lemmas ----
